@@ -22,6 +22,7 @@ type Req struct {
 	Remote  string // RemoteAddr ("ip:port"); default 192.0.2.1:40000
 	HTTPS   bool
 	RawHead string // if set, used verbatim instead of Method/Target/Host/Headers
+	HTTP10  bool   // send as HTTP/1.0 (with Host == "" this is a legal request without a Host header)
 }
 
 // Resp is the recorded response.
@@ -44,7 +45,11 @@ func (r *Req) Parse() (*http.Request, error) {
 		if m == "" {
 			m = "GET"
 		}
-		fmt.Fprintf(&b, "%s %s HTTP/1.1\r\n", m, r.Target)
+		proto := "HTTP/1.1"
+		if r.HTTP10 {
+			proto = "HTTP/1.0"
+		}
+		fmt.Fprintf(&b, "%s %s %s\r\n", m, r.Target, proto)
 		if r.Host != "" {
 			fmt.Fprintf(&b, "Host: %s\r\n", r.Host)
 		}
